@@ -40,7 +40,7 @@ func propC06(r *Run) {
 		w.fs.PutDir(cfg.BaseDir, 0o700)
 		def := cfg.SetMap()[cfg.Default]
 		// distinctive user names (so that a leaked user list is recognisable in any response body)
-		pw := map[string]string{"zq-root-admin": "pw-of-root", "zq-second-admin": "pw-of-second", "zq-plain-user": "pw-of-plain", "zq-other-user": "pw-of-other", "ZQ-Plain-User": "pw-of-upper-plain"}
+		pw := map[string]string{"zq-root-admin": "pw-of-root", "zq-second-admin": "pw-of-second", "zq-plain-user": "pw-of-plain", "zq-other-user": "pw-of-other", "ZQ-Plain-User": "pw-of-upper-plain", "zq-tiny-user": "pw-of-tiny"}
 		admins := map[string]bool{"zq-root-admin": true, "zq-second-admin": true}
 		i := 0
 		for _, u := range sortedKeysA(pw) {
@@ -69,7 +69,8 @@ func propC06(r *Run) {
 			}
 			return false, false
 		}
-		names := []string{"zq-root-admin", "zq-second-admin", "zq-plain-user", "zq-other-user", "ZQ-Plain-User"}
+		// "zq-tiny-user:false:<ts>" and "zq-root-admin:true:<ts>" have the same length on purpose
+		names := []string{"zq-root-admin", "zq-second-admin", "zq-plain-user", "zq-other-user", "ZQ-Plain-User", "zq-tiny-user"}
 		// login obtains a session token through /api/authenticate (sequential client call + drain)
 		login := func(u, p string) *tokInfo {
 			c := &Call{Kind: "authenticate", Via: "api", Agent: a.idx, User: u, PW: p}
@@ -115,7 +116,7 @@ func propC06(r *Run) {
 				creds = append(creds, "oldpw-wrong", "oldpw-right", "oldpw-right", "both")
 			}
 			q.cred = creds[r.Choose("cred", len(creds))]
-			q.target = append(names, "zq-nobody", "../zq-plain-user", "", "ZQ-PLAIN-USER", "zq-plain-user ")[r.Choose("target", 10)]
+			q.target = append(names, "zq-nobody", "../zq-plain-user", "", "ZQ-PLAIN-USER", "zq-plain-user ")[r.Choose("target", 11)]
 			q.newpw = fmt.Sprintf("new-pw-%d", k)
 			q.admin = r.Choose("admin-flag", 2) == 1
 			// obtain the credential
@@ -316,6 +317,69 @@ func propC06(r *Run) {
 				case "remove":
 					delete(pw, tgt)
 				}
+			}
+		}
+		// concurrent phase: administrator reads and refused requests of ordinary users in flight
+		// at the same time (handlers share the session factory); statement boundaries in the
+		// handler code are scheduling points, so one handler can be suspended in the middle of
+		// checking its session while another one runs
+		if ex, _ := exists("zq-root-admin"); ex {
+			adminTok := login("zq-root-admin", pw["zq-root-admin"])
+			var userTok *tokInfo
+			for _, u := range []string{"zq-tiny-user", "zq-plain-user", "zq-other-user", "ZQ-Plain-User"} {
+				if ex, adm := exists(u); ex && !adm && userTok == nil {
+					userTok = login(u, pw[u])
+				}
+			}
+			if adminTok != nil && userTok != nil {
+				before := w.fs.Snapshot(cfg.BaseDir)
+				type exp struct {
+					c       *Call
+					refused bool
+				}
+				var exps []exp
+				for i := 0; i < 2+r.Choose("conc-clients", 4); i++ {
+					var plan []*Call
+					for k := 0; k < 1+r.Choose("conc-calls", 2); k++ {
+						if r.Choose("conc-who", 2) == 0 {
+							c := &Call{Kind: []string{"list", "list-full"}[r.Choose("conc-admin-kind", 2)], Via: "api", Agent: a.idx, Session: adminTok.text}
+							plan = append(plan, c)
+							exps = append(exps, exp{c, false})
+						} else {
+							kind := []string{"set-admin", "list", "list-full", "add", "remove"}[r.Choose("conc-user-kind", 5)]
+							c := &Call{Kind: kind, Via: "api", Agent: a.idx, Session: userTok.text, User: userTok.user, PW: "conc-pw", Admin: true}
+							if kind == "add" {
+								c.User = "zq-intruder"
+							}
+							if kind == "remove" {
+								c.User = "zq-second-admin"
+							}
+							plan = append(plan, c)
+							exps = append(exps, exp{c, true})
+						}
+					}
+					w.addClient(plan)
+				}
+				w.runLoop(loopOpts{maxSteps: 6000, wClient: 2, wLoop: 5})
+				if wedge := w.settle(nil); wedge != "" {
+					r.FailOther("C10", wedgeSignature(wedge), "%s", wedge)
+					return
+				}
+				for _, e := range exps {
+					if e.c.Status == -1 {
+						r.Fail("handler/panic/concurrent", "%s makes the handler panic: %s", e.c, truncateA(e.c.Body, 200))
+					}
+					if e.refused && e.c.Status >= 200 && e.c.Status < 300 {
+						r.Fail("authz/concurrent-request-took-another-identity/"+e.c.Kind, "with %d requests in flight, %s carrying the session of ordinary user %s was answered %d: %s", len(exps), e.c, userTok.user, e.c.Status, truncateA(e.c.Body, 200))
+					}
+					if !e.refused && e.c.Status != 200 {
+						r.Count("probe:concurrent-admin-read-refused")
+					}
+				}
+				if d := diffNoTmp(before, w.fs.Snapshot(cfg.BaseDir)); len(d) > 0 {
+					r.Fail("authz/unauthorised-effect/concurrent", "refused requests of an ordinary user, in flight together with administrator reads, changed the store: %v", d)
+				}
+				r.Add("probe:concurrent-api-requests", len(exps))
 			}
 		}
 		r.Steps += nreq
